@@ -23,14 +23,14 @@ Qed.
 Lemma verify_ok_inv p chain hashes :
   verify_raw_certs p chain hashes = VOk ->
   exists pre leaf, chain = pre ++ [leaf] /\
-    advertises hashes (x_hash leaf) = true /\ x_parse leaf = true /\ x_sig leaf <> 1 /\
+    advertises hashes (x_hash leaf) = true /\ x_parse leaf = true /\ rsa_test p leaf = false /\
     x_na leaf - x_nb leaf <= pMaxLife p /\ x_nb leaf <= 0 <= x_na leaf.
 Proof.
   unfold verify_raw_certs. destruct (rev chain) as [|leaf r] eqn:Er; [discriminate|].
   rewrite pinned_advertises.
   destruct (advertises hashes (x_hash leaf)) eqn:Ea; [|discriminate].
   destruct (x_parse leaf) eqn:Ep; cbn [negb]; [|discriminate].
-  destruct (Z.eqb_spec (x_sig leaf) 1) as [|Hs]; [discriminate|].
+  destruct (rsa_test p leaf) eqn:Hs; [discriminate|].
   destruct (Z.ltb_spec (pMaxLife p) (x_na leaf - x_nb leaf)) as [|Hl]; [discriminate|].
   destruct (Z.ltb_spec 0 (x_nb leaf)) as [|Hb]; cbn [orb]; [discriminate|].
   destruct (Z.ltb_spec (x_na leaf) 0) as [|Ha]; [discriminate|].
@@ -41,26 +41,32 @@ Qed.
 
 (* the hypothesis the proof forces about the certificate's algorithm: the
    code recognises RSA by six PKCS#1 v1.5 SignatureAlgorithm values only *)
-Definition rsa_recognised (c : xcert) : Prop :=
-  x_sig c <> 2 /\ (x_pubrsa c = true -> x_sig c = 1).
+Definition rsa_recognised (p : params) (c : xcert) : Prop :=
+  pRsaRule p = 0 -> x_sig c <> 2 /\ (x_pubrsa c = true -> x_sig c = 1).
+
+Lemma rsa_test_false p c : rsa_recognised p c -> rsa_test p c = false -> is_rsa c = false.
+Proof.
+  unfold rsa_recognised, rsa_test. intros Hr Ht.
+  destruct (Z.eqb_spec (pRsaRule p) 0) as [E|]; [|exact Ht].
+  destruct (Hr E) as (Hpss & Hkey). unfold is_rsa. rewrite Ht.
+  destruct (x_pubrsa c); [specialize (Hkey eq_refl); apply Z.eqb_neq in Ht; contradiction|].
+  destruct (Z.eqb_spec (x_sig c) 2); [contradiction|]. reflexivity.
+Qed.
 
 Lemma accept_diag_ok p c hashes :
-  pMaxLife p <= spec_max_validity -> rsa_recognised c ->
+  pMaxLife p <= spec_max_validity -> rsa_recognised p c ->
   verify_raw_certs p [c] hashes = VOk -> accept_diag [c] hashes = [].
 Proof.
-  intros Hm (Hpss & Hkey) Hv. apply verify_ok_inv in Hv as (pre & leaf & E & Ha & Hp & Hs & Hl & Hb1 & Hb2).
+  intros Hm Hrec Hv. apply verify_ok_inv in Hv as (pre & leaf & E & Ha & Hp & Hs & Hl & Hb1 & Hb2).
   assert (pre = [] /\ leaf = c) as (-> & ->).
   { destruct pre as [|a [|b r]]; cbn in E.
     - inversion E. auto.
     - discriminate.
     - discriminate. }
   unfold accept_diag. rewrite Ha, Hp. cbn [negb].
-  unfold is_rsa. destruct (x_pubrsa c) eqn:Ek.
-  - exfalso. apply Hs, Hkey. reflexivity.
-  - cbn [orb]. destruct (Z.eqb_spec (x_sig c) 1); [contradiction|].
-    destruct (Z.eqb_spec (x_sig c) 2); [contradiction|]. cbn [orb].
-    destruct (Z.leb_spec (x_na c - x_nb c) spec_max_validity); [|lia]. cbn [negb].
-    destruct (Z.leb_spec (x_nb c) 0); [|lia]. destruct (Z.leb_spec 0 (x_na c)); [|lia]. reflexivity.
+  rewrite (rsa_test_false p c Hrec Hs).
+  destruct (Z.leb_spec (x_na c - x_nb c) spec_max_validity); [|lia]. cbn [negb].
+  destruct (Z.leb_spec (x_nb c) 0); [|lia]. destruct (Z.leb_spec 0 (x_na c)); [|lia]. reflexivity.
 Qed.
 
 Lemma verify_empty p hashes : verify_raw_certs p [] hashes = VNoCert.
@@ -70,7 +76,7 @@ Lemma z_of_vres_0 r : z_of_vres r = 0 -> r = VOk.
 Proof. destruct r; cbn; intros; try discriminate; reflexivity. Qed.
 
 Lemma monitor_verify_ok p chain hashes :
-  pMaxLife p <= spec_max_validity -> (length chain <= 1)%nat -> Forall rsa_recognised chain ->
+  pMaxLife p <= spec_max_validity -> (length chain <= 1)%nat -> Forall (rsa_recognised p) chain ->
   monitor_verify chain hashes (z_of_vres (verify_raw_certs p chain hashes)) = [].
 Proof.
   intros Hm Hl Hr. unfold monitor_verify.
@@ -99,7 +105,7 @@ Proof.
 Qed.
 
 Lemma monitor_dial_ok p chain addr dec srv :
-  pMaxLife p <= spec_max_validity -> (length chain <= 1)%nat -> Forall rsa_recognised chain ->
+  pMaxLife p <= spec_max_validity -> (length chain <= 1)%nat -> Forall (rsa_recognised p) chain ->
   monitor_dial chain addr dec srv (dial p chain addr dec srv) = [].
 Proof.
   intros Hm Hl Hr. unfold monitor_dial.
@@ -111,4 +117,19 @@ Proof.
     cbn [andb]. replace (forallb (fun h => mh_mem h srv) addr) with true; [reflexivity|].
     symmetry. apply forallb_forall. intros h Hin. apply mh_mem_In, Hc, Hin.
   - cbn in Hl. lia.
+Qed.
+
+(* with the complete RSA test nothing has to be assumed about the certificate *)
+Lemma rsa_rule1_recognised p chain : pRsaRule p <> 0 -> Forall (rsa_recognised p) chain.
+Proof. intros Hr. apply Forall_forall. intros c _ E. contradiction. Qed.
+
+(* with the pinned tree's test the clause fails *)
+Lemma verify_refuted_gen p : pRsaRule p = 0 -> pMaxLife p = spec_max_validity ->
+  exists c hashes, verify_raw_certs p [c] hashes = VOk /\ is_rsa c = true /\
+    monitor_verify [c] hashes (z_of_vres (verify_raw_certs p [c] hashes)) <> [].
+Proof.
+  intros Hr Hm. exists (mkX 1 true true 2 (-3600 * SEC) (86400 * SEC)), [(SHA2_256, 1)].
+  assert (E : verify_raw_certs p [mkX 1 true true 2 (-3600 * SEC) (86400 * SEC)] [(SHA2_256, 1)] = VOk).
+  { unfold verify_raw_certs, rsa_test. rewrite Hr, Hm. vm_compute. reflexivity. }
+  split; [exact E|]. split; [reflexivity|]. rewrite E. vm_compute. discriminate.
 Qed.
